@@ -123,7 +123,14 @@ def random_plan(seed, idx):
                 sid = r.randint(1, 0xFFFF)
             sym = (r.random() < 0.6, sid)
             w2 = r.random()
+            src6 = None
+            if r.random() < 0.12:
+                # two link-local IPv6 peers with one address and one port on two interfaces: the scope id tells them apart
+                src6 = ["fe80::11", 30490, 0, r.choice([2, 3])]
             o = msg(t, p, ch, sym, FIND if w2 < 0.5 else OFFER(r.choice([1, 1, 3])) if w2 < 0.7 else OFFER(0) if w2 < 0.8 else [], port=port)
+            if src6:
+                o["src"] = src6
+                o.pop("port", None)
             if r.random() < 0.12:
                 o["uf"] = False  # unicast flag clear: its entries are ignored, it is still a received SD message of that sender
             ops.append(o)
